@@ -182,10 +182,23 @@ async def run_session(hass, sess, idx):
         asyncio.ensure_future(kernel.iopub_listen(iopub_r, LogWriter("ChIopub", log))),
         asyncio.ensure_future(kernel.shell_listen(shell_r, LogWriter("ChShell", log))),
     ]
+    # optional second iopub subscriber (its messages are logged separately); it may disconnect during the session
+    log2 = []
+    iopub2_r = None
+    if sess.get("second_sub"):
+        iopub2_r = asyncio.StreamReader()
+        iopub2_r.feed_data(GREETING)
+        tasks.append(asyncio.ensure_future(kernel.iopub_listen(iopub2_r, LogWriter("ChIopub", log2))))
     await settle()
     start = len(log)
+    start2 = len(log2)
+    second_ok = True
     groups, reqs, tbl = [], [], []
     for n, spec in enumerate(sess["reqs"]):
+        if iopub2_r is not None and sess.get("second_sub_leaves_before") == n:
+            iopub2_r.feed_eof()      # the second subscriber closes its connection
+            await settle()
+            iopub2_r = None
         wire, header, json_ok = build_request(spec, key, n)
         frames = wire[wire.index(DELIM) + 2 :] if DELIM in wire else []
         if frames:
@@ -195,7 +208,16 @@ async def run_session(hass, sess, idx):
         await settle()
         new = log[start:]
         start = len(log)
-        groups.append([decode_out(ch, raw, key.encode(), header) for ch, raw in new])
+        grp = [decode_out(ch, raw, key.encode(), header) for ch, raw in new]
+        if iopub2_r is not None:
+            # while connected, the second subscriber must receive exactly the broadcasts the first one receives
+            new2 = [decode_out(ch, raw, key.encode(), header) for ch, raw in log2[start2:]]
+            start2 = len(log2)
+            if new2 != [o for o in grp if o["chan"] == "ChIopub"]:
+                second_ok = False
+                grp.append({"chan": "ChIopub", "type": "MOther", "ids": [], "sig_ok": False, "parent_ok": False, "count": None,
+                            "second_subscriber_differs": True})
+        groups.append(grp)
     for t in tasks:
         t.cancel()
     for t in tasks:
